@@ -118,7 +118,10 @@ def run_case(case, eng, res):
                                                                            SymSeq("bytes", f.items[40:43]).eq(y.dev["dev"])), "frame %d" % k, x))
         for d in diffs:
             if d:
-                checks.append(("no_state_outlives_an_operation", True, "written: %s" % (d[:4],), runs[-1]))
+                # state that outlives an operation breaks the inductive argument (DESIGN 6, C03) but is not by itself a
+                # violation (a cache of a pure function is harmless): it is reported, and the claim stays bounded to the
+                # explored sequences and interleavings, which is where a stale session / timestamp / identity shows up
+                res["notes"].append("state written by an operation and still there afterwards: %s" % (d[:4],))
         for lbl, bad, detail, run in checks:
             res["checks"][lbl] = res["checks"].get(lbl, 0) + 1
             if bad is False:
